@@ -268,7 +268,8 @@ impl SparseVector {
         let mut values = Vec::new();
 
         for (i, &val) in dense.iter().enumerate() {
-            if val.abs() >= threshold {
+            // Only values below the threshold are dropped; NaN is not below anything.
+            if val.is_nan() || val.abs() >= threshold {
                 positions.push(i as u32);
                 values.push(val);
             }
@@ -1126,7 +1127,7 @@ impl SparseVector {
             .positions
             .iter()
             .zip(&self.values)
-            .filter(|(_, &v)| v.abs() >= threshold)
+            .filter(|(_, &v)| v.is_nan() || v.abs() >= threshold)
             .map(|(&p, &v)| (p, v))
             .unzip();
 
